@@ -1,5 +1,6 @@
 import RSocketModel.Proofs.StreamId
 import RSocketModel.Gen.Constants
+import RSocketModel.Engine.Step
 /-!
 # C13 — Stream ids: right parity, never zero, never a live id, wrap-around
 
@@ -176,3 +177,18 @@ example : (run (init 3 1) [.allocate, .allocate, .allocate, .allocate, .finish 3
   decide
 
 end RSocketModel.StreamId
+
+namespace RSocketModel.Engine
+
+/-- **an incoming request on an id that is still active is rejected and replaces nothing**: for
+every engine state, every stream-opening frame type and every handler behaviour, the only effect
+is one ERROR[REJECTED] on that stream; the state — table, handler objects, cache — is unchanged -/
+theorem c13_request_on_active_id_rejected (st : State) (hc : st.closed = false) (ty : FType) (hty : isInitiate ty = true)
+    (sid : Nat) (hact : st.isActive sid = true) (hcache : st.cache.find? (·.1 == sid) = none)
+    (data : List Nat) (n : Nat) (complete : Bool) (b : Behaviour) :
+    step st (.recv { ty := ty, sid := sid, n := n, data := data, complete := complete } b) =
+      (st, [.send (mkError sid cRejected)]) := by
+  cases ty <;> simp [isInitiate] at hty <;>
+    simp [step, recvStep, hc, isFragmentable, cacheAppend, hcache, isInitiate, handleByType, hact, State.emit]
+
+end RSocketModel.Engine
